@@ -16,6 +16,7 @@ package table
 // out are rendered again after each further application and must not have changed.
 
 import (
+	"github.com/osrg/gobgp/v4/api"
 	"fmt"
 	"net/netip"
 	"regexp"
@@ -1185,6 +1186,32 @@ func runC10(c c10Case, st *verifkit.Stats) *verifkit.Failure {
 				gs.Conditions.BgpConditions.RouteType != want.Conditions.BgpConditions.RouteType || gs.Conditions.BgpConditions.RpkiValidationResult != want.Conditions.BgpConditions.RpkiValidationResult ||
 				gs.Conditions.BgpConditions.LocalPrefEq != want.Conditions.BgpConditions.LocalPrefEq || gs.Conditions.BgpConditions.MedEq != want.Conditions.BgpConditions.MedEq {
 				return verifkit.Failf("readback-conditions", "statement %s: attribute conditions read back as %s, configured %s", gs.Name, verifkit.JSON(gs.Conditions.BgpConditions), verifkit.JSON(want.Conditions.BgpConditions))
+			}
+			// ... and through the API rendering (ListPolicy / ListPolicyAssignment): names and match options of the set conditions
+			as := toStatementApi(&gs)
+			for _, x := range []struct {
+				what string
+				got  *api.MatchSet
+				name string
+				opt  string
+			}{
+				{"prefix-set", as.Conditions.PrefixSet, want.Conditions.MatchPrefixSet.PrefixSet, string(want.Conditions.MatchPrefixSet.MatchSetOptions)},
+				{"neighbor-set", as.Conditions.NeighborSet, want.Conditions.MatchNeighborSet.NeighborSet, string(want.Conditions.MatchNeighborSet.MatchSetOptions)},
+				{"as-path-set", as.Conditions.AsPathSet, want.Conditions.BgpConditions.MatchAsPathSet.AsPathSet, string(want.Conditions.BgpConditions.MatchAsPathSet.MatchSetOptions)},
+				{"community-set", as.Conditions.CommunitySet, want.Conditions.BgpConditions.MatchCommunitySet.CommunitySet, string(want.Conditions.BgpConditions.MatchCommunitySet.MatchSetOptions)},
+				{"ext-community-set", as.Conditions.ExtCommunitySet, want.Conditions.BgpConditions.MatchExtCommunitySet.ExtCommunitySet, string(want.Conditions.BgpConditions.MatchExtCommunitySet.MatchSetOptions)},
+				{"large-community-set", as.Conditions.LargeCommunitySet, want.Conditions.BgpConditions.MatchLargeCommunitySet.LargeCommunitySet, string(want.Conditions.BgpConditions.MatchLargeCommunitySet.MatchSetOptions)},
+			} {
+				if x.name == "" {
+					if x.got != nil {
+						return verifkit.Failf("readback-api", "statement %s: the API form has a %s condition (%v), none is configured", gs.Name, x.what, x.got)
+					}
+					continue
+				}
+				wantType := map[string]api.MatchSet_Type{"": api.MatchSet_TYPE_ANY, "any": api.MatchSet_TYPE_ANY, "all": api.MatchSet_TYPE_ALL, "invert": api.MatchSet_TYPE_INVERT}[strings.ToLower(x.opt)]
+				if x.got == nil || x.got.Name != x.name || x.got.Type != wantType {
+					return verifkit.Failf("readback-api", "statement %s: %s condition reads back through the API as %v, configured %s / %q", gs.Name, x.what, x.got, x.name, x.opt)
+				}
 			}
 			if gs.Actions.BgpActions.SetMed != want.Actions.BgpActions.SetMed && !(want.Actions.BgpActions.SetMed == "-5" || want.Actions.BgpActions.SetMed != "") {
 				return verifkit.Failf("readback-actions", "statement %s: set-med %q, configured %q", gs.Name, gs.Actions.BgpActions.SetMed, want.Actions.BgpActions.SetMed)
